@@ -135,6 +135,7 @@ type gate struct {
 	armed   bool
 	waiting int
 	ch      chan struct{}
+	fire    *int32 // woken readers spin on it (<= 200 us) so that they leave together
 }
 
 func (g *gate) park(max time.Duration) {
@@ -144,11 +145,14 @@ func (g *gate) park(max time.Duration) {
 		return
 	}
 	g.waiting++
-	ch := g.ch
+	ch, fire := g.ch, g.fire
 	g.mu.Unlock()
 	t := time.NewTimer(max)
 	select {
 	case <-ch:
+		// fire is already set in the "staggered" variants
+		for t0 := time.Now(); atomic.LoadInt32(fire) == 0 && time.Since(t0) < 200*time.Microsecond; {
+		}
 	case <-t.C:
 		g.mu.Lock()
 		if g.ch == ch && g.armed {
@@ -161,7 +165,7 @@ func (g *gate) park(max time.Duration) {
 
 func (g *gate) arm() {
 	g.mu.Lock()
-	g.armed, g.waiting, g.ch = true, 0, make(chan struct{})
+	g.armed, g.waiting, g.ch, g.fire = true, 0, make(chan struct{}), new(int32)
 	g.mu.Unlock()
 }
 
@@ -171,15 +175,16 @@ func (g *gate) parked() int {
 	return g.waiting
 }
 
-func (g *gate) release() int {
+// release wakes the parked readers; they then spin until *fire is set.
+func (g *gate) release() (int, *int32) {
 	g.mu.Lock()
 	defer g.mu.Unlock()
 	if !g.armed {
-		return 0
+		return 0, new(int32)
 	}
 	g.armed = false
 	close(g.ch)
-	return g.waiting
+	return g.waiting, g.fire
 }
 
 // Cell is a versioned value guarded by a reactive.Resource. Readers register
@@ -587,18 +592,34 @@ func (c *Cell) StormWrite(minParked int, maxWait time.Duration, variant int) {
 	c.cur = nt
 	c.mu.Unlock()
 	w.noteWrite(c, old, WInvalidate, v)
-	var n int
+	if variant%2 == 0 {
+		// staggered: readers leave the gate as the scheduler wakes them,
+		// spread over the first microseconds of the invalidation
+		atomic.StoreInt32(c.gate.fire, 1)
+		old.Res.Invalidate()
+		n, _ := c.gate.release()
+		w.mu.Lock()
+		w.Stats["storm_writes"]++
+		w.Stats["registrations_released_with_an_invalidate"] += n
+		w.mu.Unlock()
+		w.bump()
+		return
+	}
+	n, fire := c.gate.release()
+	// give the woken readers time to get onto a P and start spinning
+	for t0 := time.Now(); time.Since(t0) < time.Duration(20+10*(variant%5))*time.Microsecond; {
+	}
 	switch variant % 3 {
 	case 0:
 		old.Res.Invalidate()
-		n = c.gate.release()
+		atomic.StoreInt32(fire, 1)
 	case 1:
-		n = c.gate.release()
+		atomic.StoreInt32(fire, 1)
 		old.Res.Invalidate()
 	default:
 		old.Res.Invalidate()
-		runtime.Gosched()
-		n = c.gate.release()
+		runtime.Gosched() // let the invalidate goroutine start first
+		atomic.StoreInt32(fire, 1)
 	}
 	w.mu.Lock()
 	w.Stats["storm_writes"]++
